@@ -25,7 +25,7 @@ use std::io::{BufRead, Write};
 use std::panic::{catch_unwind, AssertUnwindSafe};
 use std::str::FromStr;
 
-use purl::qualifiers::well_known::{Checksum, RepositoryUrl};
+use purl::qualifiers::well_known::{gem, maven, Checksum, DownloadUrl, FileName, RepositoryUrl, VcsUrl};
 use purl::qualifiers::Entry;
 use purl::*;
 
@@ -260,6 +260,15 @@ pub fn run_csops(spec: &str) -> Checksum<'static> {
 pub fn cs_entries(c: &Checksum) -> String {
     let mut v: Vec<(String, String)> = c.iter().map(|(k, v)| (k.to_string(), v.raw().to_string())).collect();
     v.sort();
+    // the other read accessors must show the same entries
+    let mut v2: Vec<(String, String)> = c.algorithms().map(|a| (a.to_string(), c.get_raw(a).unwrap_or("<none>").to_string())).collect();
+    v2.sort();
+    let mut v3: Vec<(String, String)> = c.into_iter().map(|(k, v)| (k.to_string(), (&*v).to_string())).collect();
+    v3.sort();
+    let v4_ok = v.iter().all(|(k, r)| c.get_value(k).map(|x| x.raw() == r.as_str()).unwrap_or(false));
+    if v2 != v || v3 != v || !v4_ok {
+        return "INCONSISTENT".into();
+    }
     if v.is_empty() {
         return "-".into();
     }
@@ -346,7 +355,23 @@ pub fn make_g(a: &[&str]) -> Made<String> {
                 Err(e) => Made::Stop(format!("E {}", perr(&e))),
             }
         },
-        "B" => build_ops::<KG>(GenericPurlBuilder::new(uh(a[2]), uh(a[3])), a[4], &|t| uh(t)),
+        "B" => {
+            let m = build_ops::<KG>(GenericPurlBuilder::new(uh(a[2]), uh(a[3])), a[4], &|t| uh(t));
+            if a[4] == "-" {
+                // GenericPurl::new and GenericPurl::builder(..).build() are the same call
+                let n = GenericPurl::<String>::new(uh(a[2]), uh(a[3]));
+                let b = GenericPurl::builder(uh(a[2]), uh(a[3])).build();
+                let same = match (&m, &n, &b) {
+                    (Made::Purl(p), Ok(x), Ok(y)) => p == x && p == y,
+                    (Made::Stop(e), Err(x), Err(y)) => *e == format!("E {}", perr(x)) && *e == format!("E {}", perr(y)),
+                    _ => false,
+                };
+                if !same {
+                    return Made::Stop("INCONSISTENT new/builder".into());
+                }
+            }
+            m
+        },
         _ => panic!("bad case"),
     }
 }
@@ -575,7 +600,15 @@ pub fn qops(spec: &str) -> (Vec<String>, Qualifiers) {
                     },
                     Ok(Entry::Vacant(_)) => "vac".into(),
                 },
-                "l" => format!("l:{}:{}", q.len(), if q.is_empty() { "t" } else { "f" }),
+                "l" => {
+                    let it = q.iter();
+                    let hint = it.size_hint();
+                    let il = it.len();
+                    let ml = q.iter_mut().len();
+                    let cap_ok = q.capacity() >= q.len();
+                    let keys_ok = q.iter().all(|(k, _)| k.as_str() == &**k && k.as_str() == AsRef::<str>::as_ref(k) && Small::from(k).as_str() == k.as_str());
+                    format!("l:{}:{}:{}:{}:{}:{}:{}", q.len(), if q.is_empty() { "t" } else { "f" }, il, hint.0, hint.1 == Some(q.len()) && cap_ok && keys_ok, ml, (&q).into_iter().count())
+                },
                 "tr" => {
                     let u = uh(f[1]);
                     q.insert_typed(RepositoryUrl::from(u.as_str()));
@@ -589,6 +622,45 @@ pub fn qops(spec: &str) -> (Vec<String>, Qualifiers) {
                 "td" => {
                     q.remove_typed::<RepositoryUrl>();
                     "u".into()
+                },
+                "tk" | "tkg" | "tkd" => {
+                    // the seven str_ref_qualifier! types, by index: insert_typed / get_typed + contains_typed / remove_typed
+                    macro_rules! typed {
+                        ($t:ty) => {{
+                            match f[0] {
+                                "tk" => {
+                                    let v = uh(f[2]);
+                                    q.insert_typed(<$t>::from(v.as_str()));
+                                    "u".to_string()
+                                },
+                                "tkg" => {
+                                    let g = q.get_typed::<$t>().map(|r| {
+                                        let s: &str = r.into();
+                                        s.to_string()
+                                    });
+                                    if g.is_some() != q.contains_typed::<$t>() {
+                                        "INCONSISTENT".to_string()
+                                    } else {
+                                        ov(g.as_deref())
+                                    }
+                                },
+                                _ => {
+                                    q.remove_typed::<$t>();
+                                    "u".to_string()
+                                },
+                            }
+                        }};
+                    }
+                    match f[1] {
+                        "0" => typed!(RepositoryUrl),
+                        "1" => typed!(DownloadUrl),
+                        "2" => typed!(VcsUrl),
+                        "3" => typed!(FileName),
+                        "4" => typed!(gem::Platform),
+                        "5" => typed!(maven::Classifier),
+                        "6" => typed!(maven::Type),
+                        _ => panic!("bad typed index"),
+                    }
                 },
                 "tC" => match q.try_insert_typed(run_csops(f[1])) {
                     Ok(()) => "u".into(),
